@@ -80,6 +80,15 @@ class FieldInvariants:
                 sites.append('%s:%d := %#x' % (fname, line, rv['op']['val']))
             else:
                 sites.append('%s:%d := <computed>' % (fname, line))
+                if kind != 'construct' and self._operand_is_param(fname, rv):
+                    # a setter-style helper storing its parameter: the values are decided at its call sites (the helper
+                    # is inlined there); a helper nobody in the crate calls can be handed anything
+                    cs = [c for c in self.prog.callers(fname) if c[0] in self.facts['functions'] and c[0] != fname]
+                    if cs:
+                        for c in cs:
+                            dyn_fns.add(c[0])
+                            sites.append('%s:%d calls %s' % (c[0], c[2], fname))
+                        continue
                 if not (kind == 'construct' and self._operand_is_param(fname, rv)):
                     dyn_fns.add(fname)
                 if kind == 'construct' and self._operand_is_param(fname, rv):
